@@ -97,8 +97,7 @@ Definition corr_ok5 (c : case5) : bool :=
   && agrees (read_cgsmiles (fo_of_table (d_fo c)) (d_long c)) (d_impl_long c).
 
 Definition class_C05 (braces : bool) (a : chain) : nat :=
-  if cls_double_close a then 1%nat
-  else if cls_ring_in_unit a then 4%nat
+  if cls_ring_in_unit a then 4%nat
   else if cls_nested_in_unit a then 5%nat
   else if cls_stale_recipe a then 10%nat
   else 0%nat.
